@@ -58,7 +58,7 @@ CLAIMED = {
          'characters with their code-unit offsets (from the text-reading model).  After associateChars a char-info never has just one side set (a character whose slot was deleted without ASSOC takes both '
          'from the neighbouring slot): the former refutation witness was replayed on the real engine with a compiled GDL-lite font and repaired by a fix: commit.  Tie and oracle as C03, plus compiled '
          'rule programs (FontKit) that insert, delete without re-association and substitute; the model computes '
-         'associateChars (char-info before/after and slot range extension) and the results are compared with the implementation on every case.',
+         'associateChars (char-info before/after and slot range extension) and the results are compared with the implementation on every case.  The narrowest width of the association fields of Slot and CharInfo is regenerated from the headers (C05_association_fields_hold_every_index); single segments of more than 65536 characters are shaped.',
     note='PARTIAL: coverage of every character by some slot range and before/after < n_slots are not proved (compared + oracle).',
     technique='Coq proof (range invariant over all op sequences; char-info sides lemma) + trace-refinement correspondence + oracle over shipped and compiled fonts',
     design='6/C05'),
@@ -142,7 +142,7 @@ CLAIMED = {
          'PARTIAL: the interface facts for the concrete format-4/12 functions are not proved, they are exercised differentially.  Tie B: the '
          'extracted model (array-backed reads) vs DirectCmap/CachedCmap on a bare Face under ASan for hundreds of synthesised well-formed and '
          'malformed cmaps at every boundary code point, with an independent OpenType reference as oracle; API level: all 0x110000 code points of '
-         'shipped fonts, direct vs cached vs an independent parser.',
+         'shipped fonts, direct vs cached vs an independent parser.  The pseudo-glyph fallback (Silf::findPseudo and its callers in the text reader and gr_face_is_char_supported) is modelled: the cmap\'s answer stands when non-zero, otherwise the glyph listed for that code point of any plane, 0 when none (C13_pseudo_*, C13_supported_iff); the shape of those functions is regenerated (Gen/GenPseudo.v) and the supported-though-unmapped code points of fonts with pseudo maps (shipped, and with entries moved beyond the BMP) go through the extracted model.',
     note='Trusted: Coq kernel; extraction + driver (array accessor); harness impl_cmap.cpp; Python cmap generator / reference; ASan.  Not proved: '
          'lookup4 = OpenType spec (binary search correctness) and iteration completeness - covered by tie B and the exhaustive per-font sweeps only. '
          'Two defects found were repaired (fix: commits): last code point of a range / code point 1 never cached; BMP taken from format 12.',
@@ -210,7 +210,7 @@ CLAIMED = {
          'and any two sizes are proportional.  Tie: the harness reads the design-unit inputs of finalise out of the real slots and the extracted model must reproduce '
          'the real origins and advance digit for digit at font = NULL, 2*upem and 3*upem (where float arithmetic is exact).  Oracle on the API: font = NULL vs unhinted '
          'fonts of arbitrary ppm in (0,4096] - identical glyph ids, attachments, associations; origins, advances, segment advance proportional within 2e-5 of the largest '
-         'coordinate; also after gr_seg_justify with proportional widths.',
+         'coordinate; also after gr_seg_justify with proportional widths.  The bodies of gr_slot_advance_X / _Y are regenerated (tie A): with an unhinted font the reported advance is the font = NULL value times the scale, with or without a face (C15_slot_advance_scales).',
     note='partial: theorems cover integer scales (exact in floats); single-precision rounding at other sizes is only bounded differentially.  Segments whose stream was '
          'reversed again after positioning (requested direction differs from the font\'s) and segments with fractional collision offsets are checked by the oracle only.',
     technique='Coq proof (homogeneity of final positioning by induction over the attachment tree) over hand model + exact-scale correspondence + proportionality oracle on the API',
